@@ -62,6 +62,9 @@ func gen(g *mon.Gen) {
 					for k := 0; k < g.Pick(1, 6); k++ {
 						g.Emit(&Case{Client: client, FC: fc, Size: size, Exc: exc, Mode: "random", Seed: rng.Int63()})
 					}
+					if !exc && size == 0 && (client != clientx.Serial || g.Thorough()) {
+						g.Emit(&Case{Client: client, FC: fc, Mode: "session", Seed: rng.Int63()})
+					}
 				}
 			}
 		}
@@ -247,6 +250,10 @@ func brief(steps []xport.ReadStep) string {
 
 func run(ci any, r *mon.Rec) {
 	c := ci.(*Case)
+	if clientx.TooManyHangs() {
+		r.NoteAdd("cases_skipped_after_3_hangs", 1)
+		return
+	}
 	rng := rand.New(rand.NewSource(c.Seed))
 	req, q, reply, err := Build(rng, c.Client, c.FC, c.Size, c.Exc)
 	if err != nil {
@@ -314,6 +321,41 @@ func run(ci any, r *mon.Rec) {
 				j.schedule(xport.Cuts(L, []int{a, b}, (a+b)%2), mon.Mix(5, uint64(a), uint64(b)))
 			}
 		}
+	case "session":
+		// several exchanges on ONE client; every response is kept and re-verified after the later calls
+		sess := clientx.NewSession(c.Client, clientx.Options{ReadTimeout: 2 * time.Second})
+		type kept struct {
+			resp packet.Response
+			want []byte
+		}
+		var keep []kept
+		for i := 0; i < 6; i++ {
+			rq, _, rep, err := Build(rng, c.Client, c.FC, rng.Intn(3), false)
+			if err != nil || rq.ExpectedResponseLength() > len(rep) {
+				continue // FC23: every exchange times out (known finding), not a session matter
+			}
+			var cuts []int
+			if len(rep) > 2 && rng.Intn(2) == 0 {
+				cuts = []int{1 + rng.Intn(len(rep)-1)}
+			}
+			if e := rq.ExpectedResponseLength(); e < len(rep) {
+				cuts = nil // short formulas only work for unfragmented replies (known finding)
+			}
+			out := sess.Do(rq, xport.Script{Reply: rep, Steps: xport.Cuts(len(rep), cuts, 0), Tail: "deadline"})
+			r.Eval(1)
+			if out.Hung || out.Panic != "" || out.Err != nil || libx.IsNilValue(out.Resp) {
+				r.Violate(c, "session-call-fails", mon.Attrs{"client": clientx.KindName(c.Client), "fc": int(c.FC)}, fmt.Sprintf("call %d of a session: err=%v panic=%q hung=%v", i, out.Err, out.Panic, out.Hung))
+				break
+			}
+			keep = append(keep, kept{out.Resp, rep})
+		}
+		for i, k := range keep {
+			if b := k.resp.Bytes(); !bytes.Equal(b, k.want) {
+				r.Violate(c, "earlier-response-changed-by-later-call", mon.Attrs{"client": clientx.KindName(c.Client), "fc": int(c.FC)}, fmt.Sprintf("response %d of %d on one client re-encodes to % x after the later calls, it was % x", i, len(keep), head(b), head(k.want)))
+				break
+			}
+		}
+		r.Distinct(mon.Mix(8, uint64(c.Client), uint64(c.FC), uint64(c.Seed)))
 	case "random":
 		for i := 0; i < 12; i++ {
 			var cuts []int
